@@ -6,7 +6,7 @@ use syn::{
     Field, Generics, Result, Token, Type, WherePredicate,
 };
 
-use crate::syn_utils::{expand_self, GenericParamSet};
+use crate::syn_utils::{expand_self, GenericParamSet, ParenthesizeFragments};
 
 #[derive(Clone, ToTokens, Debug)]
 pub enum Bound {
@@ -20,14 +20,18 @@ impl Parse for Bound {
         if input.peek(Token![..]) {
             return Ok(Self::Default(input.parse()?));
         }
+        // `macro_rules!` fragments inside the predicate or type keep their grouping when they are printed again.
+        use syn::visit_mut::VisitMut;
         let fork = input.fork();
         match fork.parse() {
-            Ok(p) => {
+            Ok(mut p) => {
                 input.advance_to(&fork);
+                ParenthesizeFragments.visit_where_predicate_mut(&mut p);
                 Ok(Self::Pred(p))
             }
             Err(e) => {
-                if let Ok(ty) = input.parse() {
+                if let Ok(mut ty) = input.parse() {
+                    ParenthesizeFragments.visit_type_mut(&mut ty);
                     Ok(Self::Type(ty))
                 } else {
                     Err(e)
